@@ -39,16 +39,19 @@ def guardsOk (t : List (String × Policy)) : Bool :=
 /-- the full demand of C07 on the table, as a Boolean -/
 def soundB (t : List (String × Policy)) : Bool := (publicDrops t).isEmpty && guardsOk t
 
-/-- region of the known finding F-diag-fill: the two functions that build `COO(coords, data, shape)` with
-neither guard nor `fill_value=` -/
-def ExcludedDrops (n : String) : Bool := n == "sparse.diagonal" || n == "sparse.diagonalize"
-
-/-- is the known defect present in a table? -/
-def knownDropPresent (t : List (String × Policy)) : Bool := (publicDrops t).any ExcludedDrops
-
 /-- a private helper that drops is acceptable only behind a guard of every public caller; this lists the
 private droppers (reported in the evidence) -/
 def privateDrops (fs : List FillFacts) (ps : List Policy) : List String :=
   ((fs.zip ps).filter (fun e => !e.1.isPublic && e.2 == Policy.drops)).map (·.1.name)
+
+/-! ## the fill contribution of an add-reduction -/
+
+/-- SPECIFICATION: what NumPy adds for `n` positions that all hold the fill value — the sum of `n` copies, from zero -/
+def sumRep (fill : Ext) : Nat → Ext
+  | 0 => .fin 0
+  | n + 1 => Ext.add (sumRep fill n) fill
+
+/-- region of finding F-sum-nonfinite-fill: a lane without unstored elements and a fill that is not finite -/
+def ExcludedFullLane (fill : Ext) (missing : Nat) : Bool := missing == 0 && !fill.isFinite
 
 end SparseV.FillPolicy
